@@ -168,6 +168,7 @@ class Skel:
             L.append("  if (rc == EXIT_SUCCESS) {")
             L.append("    for (unsigned i = 0; i < sizeof ctx; i++) CHECK(vf_buf[start + i] == ctx[i], \"the preceding line's code is the code it yields when assembled alone\");")
             L.append("  }")
+            L.append("  for (unsigned i = 0; i < sizeof ctx; i++) vf_shadow[start + i] = ctx[i];   /* the frame of the second line starts after them */")
             L.append("  start += (int)sizeof ctx;")
         L.append("#ifndef VF_CBMC")
         L.append('  printf("RC %d BYTES", rc); for (int i = start; rc == 0 && i < end && i < BUFN; i++) printf(" %02x", vf_buf[i]); printf("\\n");')
